@@ -92,68 +92,76 @@ def mutant_selftest(ctx, jobs=6):
     ctx.counters['mutants_run'] = len(ids)
 
 
+def _apply_and_check(prop, patches, jobs=None):
+    """apply each patch to its own scratch copy of the analysed tree (under /tmp, removed afterwards) and run this property's
+    quick check on it, `jobs` at a time with one extraction cache per worker: {id: return code | 'patch-failed'}"""
+    import shutil, tempfile, queue
+    from concurrent.futures import ThreadPoolExecutor
+    jobs = jobs or int(os.environ.get('DP_JOBS', '6'))
+    base = tempfile.mkdtemp(prefix='dpself_', dir='/tmp')
+    res = {}
+    try:
+        q = queue.Queue()
+        src = os.path.join(extract.CACHE, 'target')
+        for k in range(max(1, min(jobs, len(patches)))):
+            c = os.path.join(base, 'cache%d' % k)
+            os.makedirs(c)
+            if os.path.isdir(src):
+                subprocess.run(['cp', '-a', src, os.path.join(c, 'target')], check=False)
+            q.put(c)
+        def one(item):
+            pid, patch = item
+            cache = q.get()
+            work = os.path.join(base, 'w_' + pid)
+            try:
+                subprocess.run(['rsync', '-a', '--exclude', '/target', '--exclude', '.git', extract.REPO + '/', work + '/'], check=True)
+                r = subprocess.run(['patch', '-p1', '-s', '-i', patch], cwd=work, capture_output=True, text=True)
+                if r.returncode != 0:
+                    return pid, 'patch-failed'
+                env = dict(os.environ, DP_REPO=work, DP_CACHE=cache)
+                c = subprocess.run([os.path.join(VERIF, 'check'), prop, '--tier', 'quick', '--no-evidence'], env=env, capture_output=True, text=True)
+                return pid, c.returncode
+            finally:
+                shutil.rmtree(work, ignore_errors=True)
+                q.put(cache)
+        with ThreadPoolExecutor(max_workers=max(1, min(jobs, len(patches)))) as ex:
+            for pid, rc in ex.map(one, patches):
+                res[pid] = rc
+    finally:
+        shutil.rmtree(base, ignore_errors=True)
+    return res
+
+
 def seeded_selftest(ctx):
     """apply the independently written breaking changes kept for this property (seeded/<id>/patch.diff) to scratch copies
     under /tmp and record whether this property's check reports them (evidence only)"""
-    import glob, shutil, tempfile
+    import glob
     seeds = sorted(glob.glob(os.path.join(VERIF, 'seeded', ctx.prop + '-*')))
+    seeds = [(os.path.basename(s), os.path.join(s, 'patch.diff')) for s in seeds if os.path.exists(os.path.join(s, 'patch.diff'))]
     if not seeds:
         return
-    detected = []; missed = []; skipped = []
-    base = tempfile.mkdtemp(prefix='dpseed_', dir='/tmp')
-    try:
-        cache = os.path.join(base, 'cache')
-        os.makedirs(cache)
-        src = os.path.join(extract.CACHE, 'target')
-        if os.path.isdir(src):
-            subprocess.run(['cp', '-a', src, os.path.join(cache, 'target')], check=False)
-        for s in seeds:
-            sid = os.path.basename(s)
-            work = os.path.join(base, sid)
-            subprocess.run(['rsync', '-a', '--exclude', '/target', '--exclude', '.git', extract.REPO + '/', work + '/'], check=True)
-            r = subprocess.run(['patch', '-p1', '-s', '-i', os.path.join(s, 'patch.diff')], cwd=work, capture_output=True, text=True)
-            if r.returncode != 0:
-                skipped.append(sid); shutil.rmtree(work, ignore_errors=True); continue
-            env = dict(os.environ, DP_REPO=work, DP_CACHE=cache)
-            c = subprocess.run([os.path.join(VERIF, 'check'), ctx.prop, '--tier', 'quick', '--no-evidence'], env=env, capture_output=True, text=True)
-            (detected if c.returncode == 1 else missed).append(sid)
-            shutil.rmtree(work, ignore_errors=True)
-    finally:
-        shutil.rmtree(base, ignore_errors=True)
+    res = _apply_and_check(ctx.prop, seeds)
+    detected = sorted(k for k, v in res.items() if v == 1)
+    missed = sorted(k for k, v in res.items() if v not in (1, 'patch-failed'))
+    skipped = sorted(k for k, v in res.items() if v == 'patch-failed')
     ctx.info.setdefault('extra', {})['seeded_selftest'] = {'detected': detected, 'missed': missed, 'patch_no_longer_applies': skipped}
     ctx.counters['seeds_run'] = len(detected) + len(missed)
 
 
 def refactor_selftest(ctx):
-    """apply the independently written behaviour-preserving refactorings (selftest/refactors/<id>/patch.diff) to scratch
+    """apply the independently written behaviour-preserving changes (selftest/refactors/<id>/patch.diff) to scratch
     copies under /tmp and record whether this property's check stays quiet on them (evidence only)"""
-    import glob, shutil, tempfile
+    import glob
     refs = sorted(x for x in glob.glob(os.path.join(VERIF, 'selftest', 'refactors', '*')) if os.path.exists(os.path.join(x, 'patch.diff')))
     if not refs:
         return
-    quiet = []; loud = []; skipped = []
-    base = tempfile.mkdtemp(prefix='dpref_', dir='/tmp')
-    try:
-        cache = os.path.join(base, 'cache')
-        os.makedirs(cache)
-        src = os.path.join(extract.CACHE, 'target')
-        if os.path.isdir(src):
-            subprocess.run(['cp', '-a', src, os.path.join(cache, 'target')], check=False)
-        for s in refs:
-            rid = os.path.basename(s)
-            work = os.path.join(base, rid)
-            subprocess.run(['rsync', '-a', '--exclude', '/target', '--exclude', '.git', extract.REPO + '/', work + '/'], check=True)
-            r = subprocess.run(['patch', '-p1', '-s', '-i', os.path.join(s, 'patch.diff')], cwd=work, capture_output=True, text=True)
-            if r.returncode != 0:
-                skipped.append(rid); shutil.rmtree(work, ignore_errors=True); continue
-            env = dict(os.environ, DP_REPO=work, DP_CACHE=cache)
-            c = subprocess.run([os.path.join(VERIF, 'check'), ctx.prop, '--tier', 'quick', '--no-evidence'], env=env, capture_output=True, text=True)
-            (quiet if c.returncode == 0 else loud).append(rid)
-            shutil.rmtree(work, ignore_errors=True)
-    finally:
-        shutil.rmtree(base, ignore_errors=True)
-    ctx.info.setdefault('extra', {})['refactor_selftest'] = {'quiet': quiet, 'not_quiet': loud, 'patch_no_longer_applies': skipped}
-    ctx.counters['refactorings_run'] = len(quiet) + len(loud)
+    res = _apply_and_check(ctx.prop, [(os.path.basename(s), os.path.join(s, 'patch.diff')) for s in refs])
+    quiet = sorted(k for k, v in res.items() if v == 0)
+    undecided = sorted(k for k, v in res.items() if v == 2)
+    loud = sorted(k for k, v in res.items() if v not in (0, 2, 'patch-failed'))
+    skipped = sorted(k for k, v in res.items() if v == 'patch-failed')
+    ctx.info.setdefault('extra', {})['refactor_selftest'] = {'quiet': len(quiet), 'undecided': undecided, 'not_quiet': loud, 'patch_no_longer_applies': skipped}
+    ctx.counters['refactorings_run'] = len(quiet) + len(loud) + len(undecided)
 
 
 def run(ctx, mod):
